@@ -297,7 +297,7 @@ func abstractObs(w *world, bc *core.Blockchain) string {
 	// whitelisted fees: what the cache answers (getWhitelistFeeContracts) and what storage holds
 	fmt.Fprintf(&sb, " wlc=%s wls=%s", joinOrDash(whitelistCached(w, bc)), joinOrDash(whitelistStored(w, bc)))
 	// cached components: what the cache answers / what storage holds
-	fmt.Fprintf(&sb, " set=%s roles=%s mgmt=%s mdf=%s gpb=%s", settingsObs(w, bc), rolesObs(w, bc), mgmtObs(w, bc), mdfObs(w, bc), gpbObs(w, bc))
+	fmt.Fprintf(&sb, " set=%s roles=%s mgmt=%s mdf=%s gpb=%s gpv=%s", settingsObs(w, bc), rolesObs(w, bc), mgmtObs(w, bc), mdfObs(w, bc), gpbObs(w, bc), gpvObs(w, bc))
 	// policy (through the cache getters)
 	pico := bc.GetBaseExecFee() // picoGAS units after Faun
 	fmt.Fprintf(&sb, " fpb=%d eff=%d sp=%d", bc.FeePerByte(), pico, bc.GetStoragePrice())
@@ -591,6 +591,22 @@ func mgmtObs(w *world, bc *core.Blockchain) string {
 func mdfObs(w *world, bc *core.Blockchain) string {
 	g := invokeInts(w, bc, []chainx.Call{{Hash: nativehashes.ContractManagement, Method: "getMinimumDeploymentFee"}})[0]
 	return g + "/" + storedInt(bc, nativeids.ContractManagement, []byte{20})
+}
+
+// gpvObs: the stored reward-per-vote records of NEO (prefix 23), per key index.
+func gpvObs(w *world, bc *core.Blockchain) string {
+	recs := map[string]string{}
+	bc.SeekStorage(nativeids.NeoToken, []byte{23}, func(k, v []byte) bool {
+		recs[string(k)] = bigFromLE(v)
+		return true
+	})
+	var out []string
+	for i := 0; i < w.nkeys; i++ {
+		if v, ok := recs[string(w.net.Pub(i).Bytes())]; ok {
+			out = append(out, fmt.Sprintf("%d:%s", i, v))
+		}
+	}
+	return joinOrDash(out)
 }
 
 // gpbObs: NEO.getGasPerBlock (cache, for the next block) / the stored records index:value.
